@@ -633,6 +633,10 @@ func statusFromError(id uint32, err error) *sshFxpStatusPacket {
 		ret.StatusError.Code = sshFxNoSuchFile
 		return ret
 	}
+	if os.IsPermission(err) {
+		ret.StatusError.Code = sshFxPermissionDenied
+		return ret
+	}
 	if code, ok := translateSyscallError(err); ok {
 		ret.StatusError.Code = code
 		return ret
